@@ -82,6 +82,7 @@ pub fn gen_base(prop: &str, rng: &mut Rng, small_only: bool, seed: u64) -> Case 
         rplan: IoPlan::default(),
         media: Vec::new(),
         seed,
+        write_buffer: if prop == "C08" && rng.chance(1, 3) { *rng.pick(&[8u64, 64, 512, 8192]) } else { 0 },
     }
 }
 
@@ -211,7 +212,7 @@ pub fn media_op(rng: &mut Rng, env: &Env, lens: &[u64]) -> MediaOp {
     };
     match rng.below(20) {
         0..=5 => MediaOp::Xor(pos(rng), 1u8 << rng.below(8)),
-        6..=9 => MediaOp::Set(pos(rng), *rng.pick(&[0u8, 1, 2, 0x7f, 0x80, 0xff, 0xfe, 0x20])),
+        6..=9 => MediaOp::Set(pos(rng), *rng.pick(&[0u8, 1, 2, 0x7f, 0x80, 0xff, 0xfe, 0x20, 0xd8, 0xdb, 0xdf, 0x11])),
         10 => MediaOp::Set(pos(rng), rng.next_u64() as u8),
         11 | 12 => MediaOp::Zero((pos(rng) / 64) * 64, 64),
         13 => MediaOp::Copy((rng.below(len.max(1)) / 64) * 64, (rng.below(len.max(1)) / 64) * 64, 64),
